@@ -38,9 +38,12 @@ type c06Job struct {
 	Stop  uint64 `json:"stop"`  // 0 = not configured
 	Batch int    `json:"batch"`
 	Conc  int    `json:"conc"`
-	Prior string `json:"prior"` // none | inside | stop
-	P     uint64 `json:"p"`     // recorded position before the run (prior != none)
-	Grow  int    `json:"grow"`  // number of growth operations of the environment (1: h→h+3; 2: h→h+1→h+3; 3: +1,+1,+1)
+	Prior string `json:"prior"` // none | inside | stop | reconf
+	// reconf: the position P was recorded under ANOTHER configured range (start PriorStart, no stop); the tasks are then
+	// rebuilt with start/stop of this job (a restart with an edited configuration). Expected: resume from P.
+	PriorStart uint64 `json:"prior_start,omitempty"`
+	P          uint64 `json:"p"`    // recorded position before the run (prior != none)
+	Grow       int    `json:"grow"` // number of growth operations of the environment (1: h→h+3; 2: h→h+1→h+3; 3: +1,+1,+1)
 	// Sib adds a second integration ig0 on the same source (same shape, table t0, same start, NO stop) that is stepped
 	// before every step of the integration under test and shares its client: "free" = unrelated; "ref" = the integration
 	// under test carries a filter reference to ig0's column f (so it also waits for ig0's position)
@@ -65,7 +68,7 @@ func init() {
 		ID:        "C06",
 		Level:     "model_checking",
 		Technique: "stateless model checking of the real pipeline (controlled scheduler over instrumented code, fake Postgres, simulated node): every (start, stop) pair relative to the head x batch x concurrency x prior recorded position, all interleavings of task steps with head growth up to a preemption bound, every placement of a process restart; range oracle evaluated on every commit",
-		Rule: "jobs = head h in 1..5 (every block produces rows) x start in 0..h+2 x stop in {unset} u 1..h+2 x batch in 1..3 x conc in 1..2 x prior position in {none, inside the range (produced by really running the task on a shorter chain), at stop} x shape {L1 headers+logs, T1 blocks}, plus start/stop written as JSON number, quoted decimal, zero-padded quoted decimal, $ENV reference to a plain and to a zero-padded value (h=8, start 8..10, stop unset,9..11), plus, for every range with a start and a stop and batch >= 2 (conc 1), the same job with a SECOND integration on the source that is stepped before every step of the one under test: unrelated, or referenced by it through a filter reference (one client and block cache, dependency limit) (quick: the shape alternates with batch+conc and one inside position, the middle one; thorough: both shapes, every inside position); " +
+		Rule: "jobs = head h in 1..5 (every block produces rows) x start in 0..h+2 x stop in {unset} u 1..h+2 x batch in 1..3 x conc in 1..2 x prior position in {none, inside the range (produced by really running the task on a shorter chain), at stop} x shape {L1 headers+logs, T1 blocks}, plus reconfigured ranges (position 2 recorded with start 1, tasks rebuilt with start in {1,2,3,4,8} and stop in {unset,2,4,h+2}: must resume from 3), plus start/stop written as JSON number, quoted decimal, zero-padded quoted decimal, $ENV reference to a plain and to a zero-padded value (h=8, start 8..10, stop unset,9..11), plus, for every range with a start and a stop and batch >= 2 (conc 1), the same job with a SECOND integration on the source that is stepped before every step of the one under test: unrelated, or referenced by it through a filter reference (one client and block cache, dependency limit) (quick: the shape alternates with batch+conc and one inside position, the middle one; thorough: both shapes, every inside position); " +
 			"per job: the environment grows the chain to h+3 in two operations; by default it acts whenever the task idles (one operation, or both: enumerated); deviations enumerated exhaustively: growth operations placed before any step or at any JSON-RPC exchange of the task (the preemption), and process restarts (tasks discarded, real loadTasks again) before any step; on jobs without a recorded position whose start is unset or beyond the head a placed growth may also happen right after the node answered the exchange, followed by a tick of the client's head poller (the poller refreshes the head cache between two reads of the task). quick: <= 1 placed growth, <= 1 restart, both in one execution only when h <= 2 or start is unset; thorough: <= 2 of each, 2 in total (h = 5: one of each). " +
 			"An execution is non-trivial when rows were written or a restart happened; distinct = distinct (job, choice sequence).",
 		Assumptions: []string{
@@ -144,6 +147,16 @@ func c06Jobs(thorough bool) []c06Job {
 							}
 						}
 					}
+				}
+			}
+		}
+	}
+	// reconfigured range: position p=2 recorded with start=1, then restarted with start in {p-1,p,p+1,p+2,p+6}, with/without stop
+	for _, h := range []int{3, 5} {
+		for _, start := range []uint64{1, 2, 3, 4, 8} {
+			for _, stop := range []uint64{0, 2, 4, uint64(h) + 2} { // (a stop must be reachable: <= h+2)
+				for batch := 1; batch <= 3; batch++ {
+					jobs = append(jobs, c06Job{Shape: []string{"L1", "T1"}[batch%2], H: h, Start: start, Stop: stop, Batch: batch, Conc: 1, Prior: "reconf", P: 2, PriorStart: 1, Grow: 2})
 				}
 			}
 		}
@@ -255,7 +268,17 @@ func c06Prepare(j c06Job) (*c06Prep, error) {
 		w := world.New(nil, world.Cfg{Snap: p.snap, Chains: map[string]*simeth.Chain{"node1": p.full.Truncate(j.P)}})
 		var perr error
 		w.Run(func() {
-			tasks, err := w.LoadTasks(conf)
+			priorConf := conf
+			if j.Prior == "reconf" { // the position is recorded under the earlier configuration
+				da := shape(j.Shape, "ig1", "t1", world.SrcRef{Name: "src1", Start: j.PriorStart})
+				pc, err := world.ParseConf(world.ConfJSON([]world.Source{{Name: "src1", ChainID: 7, URL: "http://node1", Batch: j.Batch, Conc: j.Conc}}, []*world.Decl{da}))
+				if err != nil {
+					perr = fmt.Errorf("prior run: configuration: %v", err)
+					return
+				}
+				priorConf = pc
+			}
+			tasks, err := w.LoadTasks(priorConf)
 			if err != nil || len(tasks) != 1 {
 				perr = fmt.Errorf("prior run: loadTasks: %v", err)
 				return
@@ -290,6 +313,9 @@ func c06Prepare(j c06Job) (*c06Prep, error) {
 			return nil, perr
 		}
 		want := j.Start
+		if j.Prior == "reconf" {
+			want = j.PriorStart
+		}
 		if want == 0 {
 			want = j.P
 		}
@@ -407,7 +433,9 @@ func c06Exec(j c06Job, p *c06Prep, ch vrt.Chooser, states *vrt.StateSet, trace b
 				}
 				nrows++
 			}
-			if j.Start > 0 && n < j.Start {
+			// (a block after a position recorded under an earlier, lower start is resumed, not "before start": the
+			// property's resume clause decides there, see the resume check below)
+			if j.Start > 0 && n < j.Start && !(j.Prior == "reconf" && n > j.P) {
 				vio("range", "before-start:"+what+":"+tag, fmt.Sprintf("%s written for block %d < start %d", what, n, j.Start))
 				fatal = true
 			}
@@ -728,13 +756,16 @@ func c06Exec(j c06Job, p *c06Prep, ch vrt.Chooser, states *vrt.StateSet, trace b
 			if j.Stop > 0 && j.Stop < want {
 				want = j.Stop
 			}
+			if j.Prior == "reconf" && j.Stop > 0 && j.P >= j.Stop {
+				want = j.P // the recorded position is at or past the new stop: complete as it is
+			}
 			cur, has := w.Latest("src1", "ig1")
 			if has != mHas || (has && cur.Num != mCur) {
 				w.HarnessErr = fmt.Sprintf("model lost track of the cursor: db %v/%d model %v/%d", has, cur.Num, mHas, mCur)
 				return
 			}
 			dump := world.RenderDump(w.PG.Dump("t1"), cols)
-			if (j.Stop > 0 && j.Start > j.Stop) || (emptyDone && !has) {
+			if (j.Prior != "reconf" && j.Stop > 0 && j.Start > j.Stop) || (emptyDone && !has) {
 				if has || len(dump) > 0 {
 					vio("range", "written-with-empty-range:"+tag, fmt.Sprintf("start %d > stop %d but position=%v/%d and %d rows exist", j.Start, j.Stop, has, cur.Num, len(dump)))
 				}
@@ -777,7 +808,7 @@ func c06Exec(j c06Job, p *c06Prep, ch vrt.Chooser, states *vrt.StateSet, trace b
 	switch {
 	case len(res.vios) > 0 && !(len(res.vios) == 1 && res.vios[0].Key == c06KnownPanic):
 		res.outcome = "VIOLATION:" + res.vios[len(res.vios)-1].Class
-	case (j.Stop > 0 && j.Start > j.Stop) || (emptyDone && !mHas):
+	case (j.Prior != "reconf" && j.Stop > 0 && j.Start > j.Stop) || (emptyDone && !mHas):
 		res.outcome = "empty-range"
 	case j.Stop > 0 && j.Stop <= finalHead:
 		res.outcome = "done-at-stop"
